@@ -770,6 +770,11 @@ func (c *Client) ServerMOTD() (motd string) {
 // when we receive a pong.
 func (c *Client) Latency() (delta time.Duration) {
 	c.mu.RLock()
+	if c.conn == nil {
+		c.mu.RUnlock()
+		return 0
+	}
+
 	c.conn.mu.RLock()
 	delta = c.conn.lastPong.Sub(c.conn.lastPing)
 	c.conn.mu.RUnlock()
